@@ -308,6 +308,23 @@ mod verif_kani {
         }
     }
 
+    // C27.votes_current (second half): a new candidacy starts without any vote of another node - votes and
+    // pre-votes collected earlier are forgotten, so the majority counted by vote_received consists of votes
+    // granted for the new term
+    #[kani::proof]
+    #[kani::unwind(5)]
+    fn c27_election_forgets_earlier_votes() {
+        let mut c = any_cluster();
+        kani::assume(c.term < u64::MAX);
+        let term_before = c.term;
+        let requests = c.election();
+        assert!(matches!(c.state, ClusterState::Candidate));
+        assert!(c.term == term_before + 1);
+        let me = c.index;
+        assert!(c.nodes.iter().all(|n| n.index == me || !n.voted));
+        assert!(requests.iter().all(|r| r.term == c.term && r.index == me && matches!(r.data, RequestType::Vote)));
+    }
+
     // C27.single_vote + C28: responses keep the vote memory and the commit index (one harness per kind
     // of request that is being answered; the response itself is arbitrary)
     fn response_to(data: RequestType<u8>) {
